@@ -432,7 +432,7 @@ fn nest(open: &str, core: &str, close: &str, d: usize) -> String {
     s
 }
 
-pub const N_STRESS: u64 = 124;
+pub const N_STRESS: u64 = 126;
 
 /// fixed stress inputs; `k` in 0..N_STRESS. Shapes are phrased in the grammar of the family.
 pub fn stress_text(w: &RWorld, fam: Fam, k: u64) -> (String, &'static str) {
@@ -491,8 +491,19 @@ pub fn stress_text(w: &RWorld, fam: Fam, k: u64) -> (String, &'static str) {
             let d = 396 + (k as usize - 47) * 2;
             (outer(nest("thresh(1,", &leaf, ")", d)), "depth-396..412-thresh")
         }
-        56 => (outer(nest("or_i(0,", "1", ")", 10_000)), "depth-1e4"),
-        57 => (outer(nest("or_i(0,", "1", ")", 100_000)), "depth-1e5"),
+        56 | 57 => {
+            // nesting far beyond the limit, in the family's own grammar (the pre-check of the
+            // expression parser is what stands between this input and recursive code)
+            let d = if k == 56 { 10_000 } else { 100_000 };
+            let label = if k == 56 { "depth-1e4" } else { "depth-1e5" };
+            match fam {
+                Fam::Conc | Fam::Sem => {
+                    let open = format!("and({},", leaf);
+                    (nest(&open, &leaf, ")", d), label)
+                }
+                _ => (outer(nest("or_i(0,", "1", ")", d)), label),
+            }
+        }
         58 => (outer(nest("(", "", ")", 100_000)), "parens-1e5"),
         59 => ("(".repeat(100_000), "open-1e5"),
         60 => (")".repeat(100_000), "close-1e5"),
@@ -613,7 +624,22 @@ pub fn stress_text(w: &RWorld, fam: Fam, k: u64) -> (String, &'static str) {
                 "sh-redeem-521-bytes",
             )
         }
-        _ => (outer(format!("pk({}{})", w.xpub[0], "/0".repeat(256))), "path-256-steps"),
+        123 => (outer(format!("pk({}{})", w.xpub[0], "/0".repeat(256))), "path-256-steps"),
+        124 => {
+            let open = match fam {
+                Fam::Conc => format!("or(1@{},9@", leaf),
+                Fam::Sem => format!("or({},", leaf),
+                _ => format!("or_d({},", leaf),
+            };
+            (outer(nest(&open, &leaf, ")", 20_000)), "depth-2e4-or")
+        }
+        _ => {
+            let open = match fam {
+                Fam::Conc | Fam::Sem => format!("thresh(1,{},", leaf),
+                _ => format!("thresh(1,{},s:", leaf),
+            };
+            (outer(nest(&open, &leaf, ")", 20_000)), "depth-2e4-thresh")
+        }
     }
 }
 
